@@ -102,8 +102,8 @@ EXTRA = {
  'C09': ' Fifth rewrite: bind the first nested cast to a fresh local (bases: casts consumed directly by a compare or a widening cast, incl. same-width sign changes).',
  'C10': ' HarnessC10Sequence: two range checks in one compilation (boundary texts of one width against its signed and unsigned type, either order) - the verdict has no memory.',
  'C12': ' HarnessC12Modules now covers 31 positions of a cross-module name (type annotations, struct field types, aliases, interface signatures, array / optional / map / result / reference / function types, array length, range bounds, index, match pattern, ?? default, multi-item declarations).',
- 'C13': ' HarnessC13Highlight: the snippet colouriser on every line of <= 4 characters over its 10 scanner-relevant characters. HarnessC13CodegenFailure: the native code generation phase under environment stubs (mkdir, write, embedded QBE exit code, linker fail by free choice): an error return implies an error diagnostic.',
- 'C14': ' HarnessC14WasmOrder: wasm EmitProgram on three-module programs with same-named functions under both map iteration orders: byte-identical binary.',
+ 'C13': ' HarnessC13Highlight: the snippet colouriser on every line of <= 4 characters over its 10 scanner-relevant characters. HarnessC13CodegenFailure: the native code generation phase under environment stubs (mkdir, write, embedded QBE exit code, linker fail by free choice): an error return implies an error diagnostic and the gen directory is removed again. HarnessC13Imports: 16 import forms (missing path, bad alias, unknown module, self import, duplicates, stray tokens) before / after a declaration on a two-module project.',
+ 'C14': ' HarnessC14LitIDs now runs the REAL lexer and parser on two modules as two logical threads (delay bound 2): the IDs of function / struct / interface / enum literals equal those of a solitary parse. HarnessC14WasmOrder: wasm EmitProgram on three-module programs with same-named functions under both map iteration orders: byte-identical binary.',
  'C15': ' HarnessC15Order: every acyclic graph over 5 modules (6 thorough): the topological order lists each module once, dependencies first.',
  'C17': ' Also the map-literal constructor ferret_map_from_pairs on 2 (3 thorough) symbolic pairs whose keys may coincide.',
  'C18': ' Also whole-value copies of byte-aligned composites of 2, 3, 6, 7 bytes (struct assigned into a fixed-array element, struct wrapped into / read out of an optional, discriminant set / cleared / set).',
